@@ -41,6 +41,7 @@ type C14Run struct {
 	aborted   bool
 	steps     int64
 	budget    int64
+	skipped   bool
 }
 
 type C14Replay struct {
@@ -124,6 +125,9 @@ func judgeC14(sc *C14Scenario, runs []*C14Run) (map[string]string, c14Info) {
 			if r.Kind == "line" && sc.HZ >= 0 && sc.HZ <= 35 && sc.VZ >= 0 && sc.VZ <= 35 {
 				continue // negative radius does not concern the line query
 			}
+			if r.skipped {
+				continue
+			}
 			if r.err == "" || r.panicked != "" {
 				out["7-invalid-input-accepted"] = fmt.Sprintf("%s run with radius=%v hZoom=%d vZoom=%d returned err=%q panic=%q (%d IDs)", r.Kind, sc.Radius, sc.HZ, sc.VZ, r.err, r.panicked, len(r.ids))
 			}
@@ -132,7 +136,7 @@ func judgeC14(sc *C14Scenario, runs []*C14Run) (map[string]string, c14Info) {
 	}
 	var lines, meas, skip []*C14Run
 	for _, r := range runs {
-		if r.err != "" || r.panicked != "" || r.aborted {
+		if r.err != "" || r.panicked != "" || r.aborted || r.skipped {
 			continue // outcome on valid input is C15/C16 territory; counted by the caller
 		}
 		switch r.Kind {
@@ -146,7 +150,7 @@ func judgeC14(sc *C14Scenario, runs []*C14Run) (map[string]string, c14Info) {
 	}
 	// clause 1: duplicate-free, requested zooms
 	for _, r := range runs {
-		if r.err != "" || r.panicked != "" || r.Kind == "line" {
+		if r.err != "" || r.panicked != "" || r.Kind == "line" || r.skipped {
 			continue
 		}
 		if len(r.set) != len(r.ids) {
@@ -494,6 +498,7 @@ func (w *Worker) runC14Case(idx int64) {
 	caseHash := simrt.DeepHash(sc)
 	nonAsc := 0
 	simrt.RestoreGlobals() // every case starts from the package state of a fresh process
+	expensive := false
 	for i, r := range runs {
 		if i > 0 && sc.valid() && g.R.Chance(1, 3) {
 			if r.Decoy = sc.decoy(g.R); r.Decoy != nil {
@@ -502,7 +507,15 @@ func (w *Worker) runC14Case(idx int64) {
 				w.St.FaultKinds["intervening_call_on_related_scenario"]++
 			}
 		}
+		if expensive && i >= 2 && (i-2)%w.K >= 2 {
+			r.skipped = true
+			continue
+		}
 		sc.exec(r)
+		if r.steps > 1_500_000 && !expensive { // step counts, not wall time: deterministic
+			expensive = true // fewer schedules for the rest of this case
+			w.St.Probes["expensive_cases_with_reduced_K"]++
+		}
 		r.Decisions = r.order.Decisions
 		w.St.Evaluations++
 		w.mergeOrderStats(r.order)
@@ -565,7 +578,9 @@ func (w *Worker) runC14Case(idx int64) {
 		}
 		rp := &C14Replay{Scenario: sc, Clause: cl}
 		for _, r := range runs {
-			rp.Runs = append(rp.Runs, &C14Run{Kind: r.Kind, Decisions: r.Decisions, Decoy: r.Decoy})
+			if !r.skipped {
+				rp.Runs = append(rp.Runs, &C14Run{Kind: r.Kind, Decisions: r.Decisions, Decoy: r.Decoy})
+			}
 		}
 		rp, note := shrinkC14(rp)
 		var sites []string
